@@ -223,6 +223,10 @@ func (dl *datalog) put(key []byte, value []byte) (uint16, uint32, error) {
 }
 
 func (dl *datalog) sync() error {
+	if dl.segments[dl.curSeg.id] != dl.curSeg {
+		// The current segment was removed by compaction, there is nothing to sync.
+		return nil
+	}
 	return dl.curSeg.Sync()
 }
 
